@@ -112,8 +112,18 @@ func genParamsFor(t *rapid.T, mode string, depth, batch int) (string, *mParams) 
 		m.InputHash = ref.Mod(ref.HashDeletion(m.DeletionIndices, m.PreRoot, m.PostRoot))
 		return "batch:" + cls, m
 	default: // wrong-shape
+		shape := pick(t, "shape", c07Shapes...)
+		return "shape:" + shape, genShapeParams(t, mode, depth, batch, shape)
+	}
+}
+
+var c07Shapes = []string{"batch+1", "batch-1", "depth+1", "depth-1", "ragged", "empty", "indices-short", "ids-short",
+	"proofs-extra", "proofs-extra", "ids-extra", "indices-extra", "proofs-short"}
+
+// genShapeParams draws a parameter set whose array dimensions differ from (depth, batch) in the named way.
+func genShapeParams(t *rapid.T, mode string, depth, batch int, shape string) *mParams {
+	{
 		b2, d2 := batch, depth
-		shape := pick(t, "shape", "batch+1", "batch-1", "depth+1", "depth-1", "ragged", "empty", "indices-short", "ids-short")
 		switch shape {
 		case "batch+1":
 			b2++
@@ -160,8 +170,39 @@ func genParamsFor(t *rapid.T, mode string, depth, batch int) (string, *mParams) 
 			if len(m.IdComms) > 0 {
 				m.IdComms = m.IdComms[:len(m.IdComms)-1]
 			}
+		// ONE array longer or shorter than the system's batch while the others fit: the valid batch is a prefix of the set
+		case "proofs-extra":
+			n := rapid.IntRange(1, 3).Draw(t, "extra_n")
+			for i := 0; i < n; i++ {
+				var row []*big.Int
+				switch pick(t, "extra_row", "full", "copy", "empty", "nil", "long") {
+				case "full":
+					for j := 0; j < depth; j++ {
+						row = append(row, genField(t, "extra_sib"))
+					}
+				case "copy":
+					row = ref.CloneSlice(m.MerkleProofs[len(m.MerkleProofs)-1])
+				case "empty":
+					row = []*big.Int{}
+				case "long":
+					for j := 0; j < depth+1; j++ {
+						row = append(row, big.NewInt(int64(j)))
+					}
+				}
+				m.MerkleProofs = append(m.MerkleProofs, row)
+			}
+		case "proofs-short":
+			m.MerkleProofs = m.MerkleProofs[:len(m.MerkleProofs)-1]
+		case "ids-extra":
+			m.IdComms = append(m.IdComms, pick(t, "extra_id", big.NewInt(0), big.NewInt(5), genField(t, "extra_idr")))
+		case "indices-extra":
+			if mode == "deletion" {
+				m.DeletionIndices = append(m.DeletionIndices, pick(t, "extra_idx", uint32(0), uint32(1)<<uint(depth), uint32(1)<<uint(depth+1)-1))
+			} else {
+				m.IdComms = append(m.IdComms, ref.Clone(m.IdComms[len(m.IdComms)-1]))
+			}
 		}
-		return "shape:" + shape, m
+		return m
 	}
 }
 
@@ -282,6 +323,7 @@ func c07Dims(mode string) [][2]int {
 }
 
 func init() {
+	registerReplay("TestC07_Shapes", runC07)
 	registerReplay("TestC07_Insertion", runC07)
 	registerReplay("TestC07_Deletion", runC07)
 }
@@ -308,4 +350,23 @@ func TestC07_Deletion(t *testing.T) {
 	d := dims[Shard()%len(dims) : Shard()%len(dims)+1]
 	warmSystems(t, d[0][0], d[0][1])
 	RunRapid(t, Check[c07Case]{Prop: "C07", Test: "TestC07_Deletion", Gen: genC07("deletion", d), Run: runC07})
+}
+
+// TestC07_Shapes: every way the arrays can disagree with the system's dimensions, many instances of each (these sets are
+// refused before any proving work, so hundreds are cheap).
+func genC07Shapes(mode string, dims [][2]int) func(t *rapid.T) c07Case {
+	return func(t *rapid.T) c07Case {
+		d := pick(t, "dims", dims...)
+		shape := pick(t, "shape", c07Shapes...)
+		m := genShapeParams(t, mode, d[0], d[1], shape)
+		return c07Case{Mode: mode, Depth: d[0], Batch: d[1], Kind: "shape:" + shape, Params: m}
+	}
+}
+
+func TestC07_Shapes(t *testing.T) {
+	mode := []string{"insertion", "deletion"}[Shard()%2]
+	dims := c07Dims(mode)
+	d := dims[(Shard()/2)%len(dims) : (Shard()/2)%len(dims)+1]
+	warmSystems(t, d[0][0], d[0][1])
+	RunRapid(t, Check[c07Case]{Prop: "C07", Test: "TestC07_Shapes", Gen: genC07Shapes(mode, d), Run: runC07})
 }
